@@ -125,6 +125,12 @@ class Interp:
             self.eval(st.value, env, f)
         elif isinstance(st, (ast.Pass, ast.Global)):
             return
+        elif isinstance(st, ast.Delete):
+            for t in st.targets:
+                if isinstance(t, ast.Name):
+                    env.pop(t.id, None)
+                else:
+                    raise Unmodelled(f"{f.qualname}:{st.lineno} del of a non-name target")
         elif isinstance(st, ast.Assign):
             v = self.eval(st.value, env, f)
             for t in st.targets:
@@ -200,6 +206,14 @@ class Interp:
         elif isinstance(t, ast.Subscript):
             obj = self.eval(t.value, env, f)
             obj[self.eval(t.slice, env, f)] = v
+        elif isinstance(t, ast.Attribute):
+            obj = self.eval(t.value, env, f)
+            if isinstance(obj, ExternalObj):
+                obj.attrs[t.attr] = v
+            elif isinstance(obj, (ClassVal, ModuleInfo, FuncInfo, dict, list, tuple, set, str, int, float, bool, type(None))):
+                raise Unmodelled(f"{f.qualname}: attribute store on {type(obj).__name__} ({src(t)}) not modelled")
+            else:
+                setattr(obj, t.attr, v)  # mock object handed in by the check
         else:
             raise Unmodelled(f"{f.qualname}: assignment target {src(t)} not modelled")
 
@@ -344,6 +358,32 @@ class Interp:
             return "".join(parts)
         if isinstance(e, (ast.ListComp, ast.SetComp, ast.GeneratorExp)):
             return self.comprehension(e, env, f)
+        if isinstance(e, ast.DictComp):
+            out2: Dict[Any, Any] = {}
+
+            def rec(i: int, env_: Dict[str, Any]) -> None:
+                if i == len(e.generators):
+                    out2[self.eval(e.key, env_, f)] = self.eval(e.value, env_, f)
+                    return
+                g = e.generators[i]
+                it = self.eval(g.iter, env_, f)
+                if isinstance(it, dict):
+                    it = list(it.keys())
+                for x in list(it):
+                    e2 = dict(env_)
+                    self.assign(g.target, x, e2, f)
+                    if all(self.truth(self.eval(c, e2, f)) for c in g.ifs):
+                        rec(i + 1, e2)
+            rec(0, env)
+            return out2
+        if isinstance(e, ast.Lambda):
+            params = [a.arg for a in e.args.args]
+
+            def lam(*vals: Any) -> Any:
+                e2 = dict(env)
+                e2.update(zip(params, vals))
+                return self.eval(e.body, e2, f)
+            return lam
         raise Unmodelled(f"{f.qualname}:{getattr(e, 'lineno', 0)} expression {type(e).__name__} not modelled: {src(e)[:60]}")
 
     def comprehension(self, e: Any, env: Dict[str, Any], f: FuncInfo) -> Any:
@@ -458,8 +498,14 @@ class Interp:
                     raise Raised(ExcVal("ValueError", None, {"value": args[0]}, e.lineno))
             if name == "str":
                 return str(args[0])
-            if name in ("set", "list", "tuple", "sorted"):
-                return {"set": set, "list": list, "tuple": tuple, "sorted": sorted}[name](*args)
+            if name == "sorted" and kwargs:
+                return sorted(*args, **kwargs)
+            if name == "zip":
+                return list(zip(*args))
+            if name == "enumerate":
+                return list(enumerate(*args, **kwargs))
+            if name in ("set", "list", "tuple", "sorted", "dict"):
+                return {"set": set, "list": list, "tuple": tuple, "sorted": sorted, "dict": dict}[name](*args)
             if name == "issubclass":
                 a, b = args
                 bs = b if isinstance(b, tuple) else (b,)
